@@ -57,6 +57,18 @@ type Result struct {
 
 var scratchRoot string
 
+var jobDeadline time.Time
+
+func overTime(res *Result) bool {
+	if time.Now().Before(jobDeadline) {
+		return false
+	}
+	if res != nil && res.Stats.Probes != nil {
+		res.Stats.Probes["job-time-cap"]++
+	}
+	return true
+}
+
 func TestMain(m *testing.M) {
 	log.SetOutput(io.Discard) // bluge logs skipped snapshots; not part of the protocol
 	warmGlobals()
@@ -252,6 +264,16 @@ func runJob(t *testing.T, job *Job) (res *Result) {
 	r.forkPath = job.Fork
 	curT = t
 	curJob.Store(job)
+	// soft wall-clock cap for the enumerations that follow a run (crash
+	// images, damage variants, fault placements): they stop early and say so
+	// (probe job-time-cap) instead of running into the driver's watchdog
+	jobDeadline = time.Now().Add(70 * time.Second)
+	if job.Tier == "thorough" {
+		jobDeadline = time.Now().Add(8 * time.Minute)
+	}
+	if job.Replay {
+		jobDeadline = time.Now().Add(24 * time.Hour) // a replay must get as far as the recorded run did
+	}
 	func() {
 		defer func() {
 			if pv := recover(); pv != nil {
